@@ -118,17 +118,17 @@ def walk_values(avps, out, ctx, depth=0):
         try:
             s = str(a)
         except Exception as e:
-            out.append((f"str(avp)-raises:{type(a).__name__}:{type(e).__name__}", f"{ctx}: code {a.code} payload {a.payload.hex()[:40]}: {e}"))
+            out.append((f"str(avp)-raises:{type(a).__name__}:{type(e).__name__}", f"{ctx}: code {a.code} payload {bytes(a.payload or b"").hex()[:40]}: {e}"))
         try:
             v = a.value
         except AvpDecodeError:
             continue
         except Exception as e:
-            out.append((f"avp.value-raises:{type(a).__name__}:{type(e).__name__}", f"{ctx}: code {a.code} payload {a.payload.hex()[:40]}: {e}"))
+            out.append((f"avp.value-raises:{type(a).__name__}:{type(e).__name__}", f"{ctx}: code {a.code} payload {bytes(a.payload or b"").hex()[:40]}: {e}"))
             continue
         if isinstance(a, AvpGrouped):
             # the reference codec decides whether the grouped payload is well-formed; every read must agree with it
-            n_ref = lenient_member_count(a.payload)
+            n_ref = lenient_member_count(bytes(a.payload or b""))
             for attempt in ("first", "second"):
                 if attempt == "second":
                     try:
@@ -140,7 +140,7 @@ def walk_values(avps, out, ctx, depth=0):
                         break
                 if n_ref is None and v is not None:
                     out.append((f"avp.value-returns-for-malformed-grouped-payload:on-{attempt}-read",
-                                f"{ctx}: code {a.code} payload {a.payload.hex()[:60]}: returned {len(v)} members"))
+                                f"{ctx}: code {a.code} payload {bytes(a.payload or b"").hex()[:60]}: returned {len(v)} members"))
                     break
                 if n_ref is not None and (v is None or len(v) != n_ref):
                     out.append((f"avp.value-wrong-for-well-formed-grouped-payload:on-{attempt}-read",
